@@ -581,6 +581,10 @@ func (g *pgen) value(t *pty, depth int) *pval {
 		v.isnil = rndn(3) == 0
 		if !v.isnil {
 			v.elem = g.value(t.elem, depth+1)
+			// a non-nil pointer to a nil pointer has no protobuf representation: outside the universe
+			for v.elem.k == kPtr && v.elem.isnil {
+				v.elem = g.value(t.elem, depth+1)
+			}
 		}
 	case kStruct:
 		for _, f := range t.fields {
@@ -597,7 +601,12 @@ func (g *pgen) value(t *pty, depth int) *pval {
 		}
 		v.isnil = n == 0 && rndBool()
 		for i := 0; i < n; i++ {
-			v.elems = append(v.elems, g.value(t.elem, depth+1))
+			e := g.value(t.elem, depth+1)
+			// protobuf has no absent element: nil pointers as slice elements / map values are outside the universe
+			for e.k == kPtr && e.isnil {
+				e = g.value(t.elem, depth+1)
+			}
+			v.elems = append(v.elems, e)
 		}
 	case kMap:
 		n := pick([]int{0, 0, 1, 1, 1, 2, 3})
@@ -610,7 +619,11 @@ func (g *pgen) value(t *pty, depth int) *pval {
 			}
 			seen[k.String()] = true
 			v.keys = append(v.keys, k)
-			v.elems = append(v.elems, g.value(t.elem, depth+1))
+			e := g.value(t.elem, depth+1)
+			for e.k == kPtr && e.isnil {
+				e = g.value(t.elem, depth+1)
+			}
+			v.elems = append(v.elems, e)
 		}
 	}
 	return v
